@@ -403,8 +403,18 @@ def ser_arg(a):
     else: ds = "v " + ser_value(TY_DEFAULT[a["ty"]])
     return "%s %s %s %d %s %s %s" % (hx(a["field"]), kind, TY_CODE[a["ty"]], 1 if a["optional"] else 0, ds, hx(arg_valname(a)), ser_doc(a.get("doc")))
 
+def default_title():
+    """the title the derive uses when no help_title is given: read from the regenerated Generated/Codes.v (the translator follows the source)"""
+    import os
+    try:
+        txt = open(os.path.join(os.path.dirname(os.path.abspath(__file__)), "..", "coq", "Generated", "Codes.v"), encoding="utf-8").read()
+        m = re.search(r"Definition DEFAULT_HELP_TITLE : list N := \[([^\]]*)\]", txt)
+        return bytes(int(x) for x in m.group(1).split(";") if x.strip()).decode("utf-8")
+    except Exception:
+        return "Commands"
+
 def ser_enum(e):
-    title = e["title"] if e.get("title") is not None else "Commands"
+    title = e["title"] if e.get("title") is not None else default_title()
     parts = [hx(title), str(len(e["cmds"]))]
     for c in e["cmds"]:
         parts += [hx(cmd_name(c)), ser_doc(c.get("doc"), bool(c.get("doc_attr"))), str(len(c["args"]))]
